@@ -37,7 +37,8 @@ Definition desired_key (ow : owner) (p : pobj) : okey :=
 Definition check_ns_escalation (ow : owner) (class : bool) (k : okey) : list viol :=
   if oi_ns (ow_id ow) =? 0 then [] else
   if class then [] else
-  if negb (k_ns k =? 0) then (if k_ns k =? oi_ns (ow_id ow) then [] else [VNamespace]) else
+  if negb (k_ns k =? 0) && negb (k_ns k =? oi_ns (ow_id ow)) then [VNamespace] else
+  (* the scope of the kind is checked whether or not a namespace is given *)
   match gk_scope (k_gk k) with
   | None => []
   | Some true => []
